@@ -38,6 +38,9 @@ type TimeWheel struct {
 
 	updateNotify chan time.Time
 	stopNotify   chan struct{}
+	// Closed by Close once tick goroutine is stopped, unblocks Add calls
+	// that are running concurrently with Close.
+	done chan struct{}
 
 	dispatch func(TimeSlot)
 }
@@ -47,6 +50,7 @@ func NewTimeWheel(dispatch func(TimeSlot)) *TimeWheel {
 		slots:        list.New(),
 		stopNotify:   make(chan struct{}),
 		updateNotify: make(chan time.Time),
+		done:         make(chan struct{}),
 		dispatch:     dispatch,
 	}
 	go tw.tick()
@@ -67,7 +71,12 @@ func (tw *TimeWheel) Add(target time.Time, value interface{}) {
 	tw.slots.PushBack(TimeSlot{Time: target, Value: value})
 	tw.slotsLock.Unlock()
 
-	tw.updateNotify <- target
+	select {
+	case tw.updateNotify <- target:
+	case <-tw.done:
+		// Stopped after the check above. Nobody will receive from
+		// updateNotify anymore, the slot will not be dispatched.
+	}
 }
 
 func (tw *TimeWheel) Close() {
@@ -83,7 +92,8 @@ func (tw *TimeWheel) Close() {
 
 	tw.stopNotify = nil
 
-	close(tw.updateNotify)
+	// updateNotify is not closed since Add may be about to send to it.
+	close(tw.done)
 }
 
 func (tw *TimeWheel) tick() {
